@@ -949,6 +949,10 @@ class Gen:
 				return self.var_e(r.choice(vs))
 			k = r.randint(0, 40)
 			return E('lit', 'float', val=k / 4.0, hi=k // 4 + 1, fe=2)
+		if r.random() < 0.18:
+			mixed = self.gen_float_int_left(env, d)
+			if mixed is not None:
+				return mixed
 		x = r.random()
 		if x < 0.45:
 			op = r.choice(['+', '-', '*'])
@@ -1003,6 +1007,29 @@ class Gen:
 		a, b = self.gen_float(env, d - 1), self.gen_float(env, d - 1)
 		return E('tern', 'float', [a, c, b], hi=max(a.hi, b.hi), fe=max(a.fe, b.fe))
 
+	def gen_float_int_left(self, env: Env, d: int) -> E | None:
+		"""`int op float` for every arithmetic operator: the value is a float whichever operand stands on the left (Python's reflected
+		operations); where this is the whole value of an un-annotated declaration its C++ type is inferred from it"""
+		r = self.r
+		i = self.gen_int(env, min(max(d - 1, 0), 1), cap=64)
+		ihi = max(abs(i.lo), abs(i.hi))
+		op = r.choice(['+', '-', '*', '/', '%', '%'])
+		if op == '/':
+			dv = r.choice([2.0, 4.0, 0.5])
+			self.count('float:int-left/')
+			return E('bin', 'float', [self.maybe_paren(i), E('lit', 'float', val=dv, hi=4, fe=1)], op='/', hi=ihi * 2, fe=2)
+		if op == '%':
+			m = r.choice([1.5, 2.5, 0.75, 3.5])
+			self.count('float:int-left%')
+			# fmod / Python % agree on non-negative operands; abs() makes the left one non-negative
+			return E('bin', 'float', [E('call', 'int', [i], val='abs', lo=0, hi=ihi), E('lit', 'float', val=m, hi=4, fe=2)], op='%', hi=4, fe=2)
+		f = self.gen_float(env, max(d - 2, 0))
+		hi, fe = (ihi * f.hi, f.fe) if op == '*' else (ihi + f.hi, f.fe)
+		if hi * 2 ** fe >= 2 ** 22 or fe > 10:
+			return None
+		self.count(f'float:int-left{op}')
+		return E('bin', 'float', [self.maybe_paren(i), self.maybe_paren(f)], op=op, hi=hi, fe=fe)
+
 	def gen(self, ty: str, env: Env, d: int) -> E:
 		if ty == 'int':
 			return self.gen_int(env, d)
@@ -1055,7 +1082,7 @@ class Gen:
 			if v.mutable and e.hi > 16:
 				v.mutable = False
 		elif ty == 'float':
-			e = self.gen_float(env, max(2, self.size))
+			e = (self.gen_float_int_left(env, 2) if r.random() < 0.3 else None) or self.gen_float(env, max(2, self.size))
 			v = Var(name, 'float', 0, e.hi, fe=e.fe)
 		elif ty == 'list[int]':
 			srcs = env.of('list[int]')
@@ -1877,6 +1904,11 @@ PROBE_WHAT = {
 		'that shadows the outer one, which keeps its old value after the loop (also when `i` is a parameter)',
 	'range:loopvar-assigned': '`for i in range(n): i = i + 1; ...`: Python takes the next value of the range on every iteration whatever the body did to `i`; the emitted '
 		'C-style loop continues from the value the body left (iterations are skipped)',
+	'comp:enumerate-index': '`[.. for i, x in enumerate(xs)]` (list / dict comprehension over enumerate): comp/comp_for_enumerate.j2 emits '
+		'`for (auto [i, __iter, __end, x] = std::tuple{0, xs.begin(), xs.end(), *(xs.begin())}; __iter < __end; __iter++, x = *__iter)` — the index `i` '
+		'is never incremented (it is 0 in every iteration), and the last step dereferences end() (an empty list dereferences begin())',
+	'str:rfind-any-char': '`s.rfind(t)` is mapped to `s.find_last_of(t)` (data/i18n.yml `str.rfind: find_last_of`): std::string::find_last_of finds the last '
+		'occurrence of ANY CHARACTER of t, not of the substring t (`\'abxa\'.rfind(\'ab\')`: python 0, c++ 3); the substring search is std::string::rfind',
 	'reject:block-scoped-name': 'a name first assigned inside a nested block (both if/else branches, a while/for body, the for variable) and read after the block '
 		'is valid Python (function-level scope) but is rejected: Errors.UnresolvedSymbol at the read, and Errors.Fatal <- RecursionError when the read is in `v = v + 1` '
 		'(the scope condition of C01.stmt_agree; the emitter never hoists a declaration)',
@@ -1955,6 +1987,16 @@ def probe_program(rng: random.Random, key: str | None = None) -> tuple[str, dict
 			f'\tt = 0\n\tfor i in range({n}):\n\t\ti = i + 1\n\t\tt += i\n\treturn t + {e1}\n',
 			f'\tt = 0\n\tfor i in range({n}):\n\t\tif i % 2 == 0:\n\t\t\ti += 2\n\t\tt += i\n\treturn t + {e1}\n',
 		])
+	elif key == 'comp:enumerate-index':
+		k = rng.randint(1, 4)
+		body = rng.choice([
+			f'\txs = [{e1}, {e2}, {a}, {b}]\n\tys = [x + i * {k} for i, x in enumerate(xs)]\n\treturn ys[1] + ys[2] * 3 + ys[3]\n',
+			f'\txs = [{e1}, {e2}, {a}]\n\tt = 0\n\tfor y in [i + {k} for i, x in enumerate(xs)]:\n\t\tt = t * 10 + y\n\treturn t\n',
+			f'\txs = [{e1}, {e2}, {a}]\n\td = {{i: x for i, x in enumerate(xs)}}\n\treturn len(d) * 1000 + d[0]\n',
+		])
+	elif key == 'str:rfind-any-char':
+		c1, c2 = rng.sample('abxy', 2)
+		body = f"\tu = '{c1}{c2}'\n\tk = s.rfind(u)\n\treturn k * 10 + {rng.randint(0, 9)}\n"
 	elif key == 'reject:block-scoped-name':
 		v = rng.choice(['v', 'w', 'acc'])
 		use = rng.choice([f'\treturn {v} + {e2}\n', f'\t{v} = {v} + {e2}\n\treturn {v}\n'])
@@ -1972,6 +2014,9 @@ def probe_program(rng: random.Random, key: str | None = None) -> tuple[str, dict
 	args = g.gen_args(f)
 	for v in args:
 		v[2] = ''.join(rng.choice('abxy ') for _ in range(rng.randint(1, 5)))
+		if key == 'str:rfind-any-char':
+			# the substring occurs once, one of its characters occurs again behind it
+			v[2] = ''.join(rng.choice('z ') for _ in range(rng.randint(0, 3))) + c1 + c2 + rng.choice(['z', ' ', 'zz']) + rng.choice([c1, c2])
 	return key, {'source': source, 'entries': [{'fn': 'f', 'params': [t for _, t, _, _ in params], 'ret': ret, 'args': args}], 'classes': {}}
 
 
@@ -2084,6 +2129,9 @@ IDIOM_WHAT = {
 	'idiom:callable-capture': 'a lambda / closure that CALLS a callable held in a local variable or a `Callable[...]` parameter must capture it',
 	'idiom:list-fill-field': 'annotated declarations whose value is a list fill (`xs: list[int] = [v] * n`, constructor field `self.xs: list[int] = [v] * n`) '
 		'are n copies of v, not the two-element initializer {n, v}',
+	'idiom:inferred-operator-type': 'the type inferred for an operator expression with operands of different types (int op float, float op int, flat chains of both) '
+		'is the type of Python\'s value whichever operand stands on the left: an un-annotated local, a list literal element, a comprehension projection '
+		'and a lambda result declared from it keep the fractional part',
 }
 
 
@@ -2105,6 +2153,8 @@ def idiom_program(rng: random.Random, key: str | None = None) -> tuple[str, dict
 		args = [[rng.randint(-9, 20)] for _ in range(5)]
 		entries = [{'fn': f, 'params': ['int'], 'ret': 'int', 'args': args} for f in ('e_lambda', 'e_closure', 'scaled')]
 		return key, {'source': '\n\n'.join(parts), 'entries': entries, 'classes': {}}
+	if key == 'idiom:inferred-operator-type':
+		return key, _mixed_type_program(rng)
 	elem = rng.choice([str(k3), 'v', f'v + {k1}', f'v * {k2}'])
 	cnt = rng.choice(['n', f'n + {rng.randint(1, 2)}', f'(n & 3)', str(rng.randint(0, 4))])
 	read = rng.choice(['t += x', f't = t * {k2} + x', 't += x + 1'])
@@ -2116,6 +2166,66 @@ def idiom_program(rng: random.Random, key: str | None = None) -> tuple[str, dict
 	args = [[rng.randint(0, 6), rng.randint(0, 9)] for _ in range(5)]
 	entries = [{'fn': f, 'params': ['int', 'int'], 'ret': 'int', 'args': args} for f in ('fill_anno', 'fill_inferred', 'fill_field')]
 	return key, {'source': '\n\n'.join(parts), 'entries': entries, 'classes': {'Grid': ['cells', 'n']}}
+
+
+def _mixed_type_program(rng: random.Random) -> dict[str, Any]:
+	"""every arithmetic operator with an int on one side and a float on the other, both orders, as the WHOLE value of a position whose C++
+	type is inferred from it (un-annotated local, list literal element, comprehension projection, lambda result). Operands are chosen so
+	that every value is exact in binary32 and the remainder / quotient has a fractional part (`/` by powers of two, `%` on non-negative
+	operands): a result type read off one operand only (`int r = fmod(n, w);`) changes the value the entry returns."""
+	fracs = [0.75, 1.25, 1.5, 2.5, 3.5]
+	pow2 = [0.5, 0.25, 2.0, 4.0, 8.0]
+
+	def operands(op: str) -> tuple[list[int], list[float]]:
+		return ([rng.randint(1, 40) for _ in range(5)], [rng.choice(pow2 if op == '/' else fracs) for _ in range(5)])
+
+	ops = ['+', '-', '*', '/', '%']
+	# every operator stands once with the int on the left in one of the five positions that take any operator (two locals, list element,
+	# projection, lambda), in every program
+	perm = ops[:]
+	rng.shuffle(perm)
+	parts = ['from collections.abc import Callable\n']
+	entries: list[dict[str, Any]] = []
+
+	def entry(fn: str, params: list[str], ret: str, args: list[list[Any]]) -> None:
+		entries.append({'fn': fn, 'params': params, 'ret': ret, 'args': args})
+
+	# un-annotated locals, int left / float left, operator per function
+	for k in range(2):
+		op1, op2 = perm[k], rng.choice(['+', '-', '*', '%'] if k == 0 else ops)
+		ns, ws = operands(op1 if op1 == '/' or op2 != '/' else op2)
+		if '/' in (op1, op2):
+			ws = [rng.choice(pow2) for _ in ws]
+		use = rng.choice(['r * 4.0 + s', 'r - s', 's + r + r'])
+		parts.append(f'def local{k}(n: int, w: float) -> float:\n\tr = n {op1} w\n\ts = w {op2} n\n\treturn {use}\n')
+		entry(f'local{k}', ['int', 'float'], 'float', [[n, w] for n, w in zip(ns, ws)])
+	# float literal on the right of an int expression, the declared name re-assigned and read in a loop
+	op = rng.choice(['%', '%', '*', '+', '-'])
+	lit = rng.choice(fracs)
+	iexpr = rng.choice(['n', '(n & 15)', 'n + 1', 'n * 2'])
+	parts.append(f'def local_lit(n: int) -> float:\n\tq = {iexpr} {op} {lit!r}\n\tt = 0.0\n\tfor i in range(3):\n\t\tt = t + q\n\t\tq = i {op} {lit!r}\n\treturn t + q\n')
+	entry('local_lit', ['int'], 'float', [[rng.randint(0, 30)] for _ in range(5)])
+	# flat chains: the int operands first / the float one in the middle
+	opa, opb = rng.choice(['+', '-', '*']), rng.choice(['+', '-', '*', '%'])
+	parts.append(f'def chain(n: int, m: int, w: float) -> float:\n\tu = n {opa} m {opb} w\n\tv = n {opb} w {opa} m\n\treturn u + v\n')
+	entry('chain', ['int', 'int', 'float'], 'float', [[rng.randint(1, 12), rng.randint(1, 9), rng.choice(fracs)] for _ in range(5)])
+	# list literal element, comprehension projection
+	op = perm[2]
+	ws = [rng.choice(pow2 if op == '/' else fracs) for _ in range(5)]
+	parts.append(f'def elems(n: int, w: float) -> float:\n\tys = [n {op} w, w]\n\treturn ys[0] + ys[1]\n')
+	entry('elems', ['int', 'float'], 'float', [[rng.randint(1, 40), w] for w in ws])
+	op = perm[3]
+	lit = rng.choice(pow2 if op == '/' else fracs)
+	src = rng.choice(['xs', 'range(n)'])
+	proj = rng.choice([f'x {op} {lit!r}', f'x {op} w'] if op != '/' else [f'x {op} {lit!r}'])
+	parts.append(f'def proj(xs: list[int], n: int, w: float) -> float:\n\tys = [{proj} for x in {src}]\n\tt = 0.0\n\tfor y in ys:\n\t\tt = t + y\n\treturn t\n')
+	entry('proj', ['list[int]', 'int', 'float'], 'float', [[[rng.randint(0, 20) for _ in range(rng.randint(1, 4))], rng.randint(1, 5), rng.choice(fracs)] for _ in range(5)])
+	# lambda result
+	op = perm[4]
+	ws = [rng.choice(pow2 if op == '/' else fracs) for _ in range(5)]
+	parts.append(f'def lam(n: int, w: float) -> float:\n\tfn: Callable[[int], float] = lambda k: k {op} w\n\treturn fn(n) + fn(n + 1)\n')
+	entry('lam', ['int', 'float'], 'float', [[rng.randint(1, 40), w] for w in ws])
+	return {'source': '\n\n'.join(parts), 'entries': entries, 'classes': {}}
 
 
 def generate(rng: random.Random, size: int = 2, kind: str | None = None) -> tuple[Prog, dict[str, int]]:
